@@ -176,3 +176,72 @@ def oracle_C13(case):  # noqa: F811
         except Exception as e:
             return {'what': 'exception:' + type(e).__name__, 'input': case[1][:100], 'observed': str(e)[:100], 'expected': 'tree'}
     return _base_oracle_C13(case)
+
+
+# C05: (a) a semicolon inside parentheses of a statement that FOLLOWS a statement ending at a non-zero nesting level
+#      (b) quote-delimited regions whose body contains the lexer's backslash-escaped quote followed by a semicolon
+_base_cases_C05, _base_oracle_C05 = cases_C05, oracle_C05  # noqa: F821
+
+
+def cases_C05(tier, seed):  # noqa: F811
+    firsts = ['select 1)', 'select a ) )', 'select f(1))', 'select 1 ]', 'select (1))']
+    seconds = ['insert into t3 (a, b) values (1; 2)', 'select (1; 2) from t', 'select f(a; b), (c) from t',
+               'update t set a = (1; 2) where b in (3; 4)']
+    for f in firsts:
+        for sep in ('; ', ';\n', ' ;\n-- c\n'):
+            for s2 in seconds:
+                yield ('count', f + sep + s2, 2)
+                yield ('count', f + sep + s2 + '; select 3', 3)
+    for q, esc in (('"', '\\"'), ("'", "\\'")):
+        for body in ('esc %s; q', '%s;', 'a%s;b%s;c', ';%s'):
+            b = body.replace('%s', esc)
+            for tmpl in ('select %s from t1; select 2 from t2', 'select 1; select %s; select 3',
+                         'insert into t values (%s); select 2'):
+                yield ('count', tmpl % (q + b + q), tmpl.count(';') + 1)
+    yield from _base_cases_C05(tier, seed)
+
+
+def oracle_C05(case):  # noqa: F811
+    if case and case[0] == 'count':
+        _k, script, want = case
+        try:
+            import sqlparse
+            got = sqlparse.split(script)
+            got2 = sqlparse.parse(script)
+        except Exception as e:
+            return {'what': 'exception:' + type(e).__name__, 'input': script, 'observed': str(e)[:100], 'expected': want}
+        if len(got) != want or len(got2) != want:
+            return {'what': 'statement-count', 'input': script, 'observed': got, 'expected': want}
+        return None
+    return _base_oracle_C05(case)
+
+
+# C17: statements that FOLLOW a procedure and would be mis-split if a block-tracking flag survived the boundary
+_base_cases_C17, _base_oracle_C17 = cases_C17, oracle_C17  # noqa: F821
+
+
+def cases_C17(tier, seed):  # noqa: F811
+    procs = ['create procedure p() begin update t set a = 1; end', 'create or replace function f() returns int begin return 1; end',
+             'CREATE FUNCTION g ( ) BEGIN IF a = 1 THEN x := 1; END IF; END']
+    tails = [['begin', 'select 1', 'end', 'select 2'], ['BEGIN TRANSACTION', 'update t set a = 2', 'COMMIT'],
+             ['declare c cursor for select 1', 'select 2'], ['select case when a then b end from t', 'select 3'],
+             ['begin', 'if x then y', 'select 4']]
+    for p_ in procs:
+        for t in tails:
+            for sep in (';\n', '; '):
+                yield ('count17', p_ + sep + sep.join(t) + ';', 1 + len(t), p_)
+    yield from _base_cases_C17(tier, seed)
+
+
+def oracle_C17(case):  # noqa: F811
+    if case and case[0] == 'count17':
+        _k, script, want, proc = case
+        try:
+            import sqlparse
+            got = sqlparse.split(script)
+        except Exception as e:
+            return {'what': 'exception:' + type(e).__name__, 'input': script, 'observed': str(e)[:100], 'expected': want}
+        if len(got) != want or got[0].rstrip(';').strip() != proc:
+            return {'what': 'following-statements-mis-split', 'input': script, 'observed': got, 'expected': want}
+        return None
+    return _base_oracle_C17(case)
